@@ -29,6 +29,7 @@ class Routing:
             for o in (i.get('outputs') or mem[-1:]):
                 self.last_of[o] = g
         self.hist_len = {}
+        self.state = {}          # part uid -> (validated length, open-path stack after it)
         self.blocked = {d: False for d in self.m.devs}
         self.n_script = self.n_recv = self.n_gate = 0
         self.sink_order = {i['id']: [] for i in items if i['kind'] == 'sink'}
@@ -45,16 +46,22 @@ class Routing:
         self.down = {d: False for d in self.single}
 
     # -- route walk -----------------------------------------------------------------------
-    def walk(self, h):
-        """-> (error or None, stack of open paths, number of group exits)"""
+    def walk(self, h, start=1, stack=None):
+        """Validate the steps h[start-1] -> h[start] ... against the route graph AS IT IS NOW (earlier steps were
+        validated when they were made; connections may have been removed since).
+        -> (error or None, stack of open paths, number of group exits)"""
         kind = self.kind
         if not h:
             return 'empty history', [], 0
-        if h[0] is None or kind.get(h[0]) != 'source':
-            return f'history does not start at a source: {h[:3]}', [], 0
-        stack = []
+        if start <= 1:
+            if h[0] is None or kind.get(h[0]) != 'source':
+                return f'history does not start at a source: {h[:3]}', [], 0
+            stack = []
+            start = 1
+        else:
+            stack = list(stack)
         exits = 0
-        for i in range(1, len(h)):
+        for i in range(start, len(h)):
             prev, cur = h[i - 1], h[i]
             if cur is None:
                 return f'unknown device at position {i}', stack, exits
@@ -101,6 +108,12 @@ class Routing:
                 rewired.add(op['target'])
                 if out == 'added':
                     self.up[op['target']].append(op['new_up'])
+            if op['op'] == 'rewire_remove' and isinstance(out, str) and out.startswith('removed:'):
+                rewired.add(op['target'])
+                gone = out.split(':', 1)[1]
+                if gone in self.up[op['target']]:
+                    self.up[op['target']].remove(gone)
+                ctx.count('connections_removed')
         gate_true = {}
         while self.n_gate < len(log.gate_calls):
             gname, part, res = log.gate_calls[self.n_gate]
@@ -142,7 +155,11 @@ class Routing:
             if len(h) < old:
                 ctx.report('history_shrank', f'part {u}: routing history had {old} entries, now {h}')
                 return
-            err, stack, exits = self.walk(h)
+            st = self.state.get(u)
+            if st is not None and old >= 1 and st[0] == old:
+                err, stack, exits = self.walk(h, old, st[1])
+            else:
+                err, stack, exits = self.walk(h)
             if err:
                 ctx.report('route', f'part {u} held by {holder}: {err}; history {h}')
                 return
@@ -166,15 +183,10 @@ class Routing:
                 if self.blocked.get(d) and blocked_now.get(d):
                     ctx.report('blocked_input', f'part {u} entered {d} at {now!r} although its input is blocked')
                     return
-            # count exits among the new entries only
-            if old:
-                e_old = self.walk(h[:old])[2]
-                self.group_exits += exits - e_old
-                ctx.count('group_exits', exits - e_old)
-            else:
-                self.group_exits += exits
-                ctx.count('group_exits', exits)
+            self.group_exits += exits
+            ctx.count('group_exits', exits)
             self.hist_len[u] = len(h)
+            self.state[u] = (len(h), list(stack))
         # 2. sinks collect in arrival order
         for k, order in self.sink_order.items():
             dev = m.devs[k]
